@@ -373,6 +373,7 @@ func c20Same(p *core.Program, r *core.Report, t *types.Named) {
 					e = d
 				}
 			}
+			e = stripWidening(info, e) // int64(this.Val) orders like this.Val when the conversion only widens
 			sel, ok := ast.Unparen(e).(*ast.SelectorExpr)
 			if !ok {
 				return "", ""
@@ -868,4 +869,35 @@ func hasLoopDeep(p *core.Program, fi *core.FuncInfo, depth int) bool {
 		return true
 	})
 	return found
+}
+
+// stripWidening removes integer conversions that keep the order of all values: to a type at least as
+// wide with the same signedness, or from unsigned to a strictly wider signed type. A narrowing or
+// sign-changing conversion is kept (it changes the order).
+func stripWidening(info *types.Info, e ast.Expr) ast.Expr {
+	for {
+		e = ast.Unparen(e)
+		call, ok := e.(*ast.CallExpr)
+		if !ok || len(call.Args) != 1 {
+			return e
+		}
+		tv, ok := info.Types[call.Fun]
+		if !ok || !tv.IsType() {
+			return e
+		}
+		dst, ok1 := tv.Type.Underlying().(*types.Basic)
+		src, ok2 := info.TypeOf(call.Args[0]).Underlying().(*types.Basic)
+		if !ok1 || !ok2 || dst.Info()&types.IsInteger == 0 || src.Info()&types.IsInteger == 0 {
+			return e
+		}
+		dw, sw := typeBits(dst), typeBits(src)
+		du, su := dst.Info()&types.IsUnsigned != 0, src.Info()&types.IsUnsigned != 0
+		switch {
+		case du == su && dw >= sw:
+		case su && !du && dw > sw:
+		default:
+			return e
+		}
+		e = call.Args[0]
+	}
 }
